@@ -612,6 +612,12 @@ def setup_ops(rng, mode, cfgs=None):
             d['enc'] = 'utf-8'
         if cfgs:
             d.update(cfgs)
+        if rng.random() < (0.5 if mode == 'upgrade' else 0.12):
+            # the application configured its own initial local settings
+            good = {1: [0, 100, 4096, 65536], 2: [0, 1] if client else [0], 3: [0, 1, 5, 100], 4: [0, 100, 65535, 70000, 2**31 - 1],
+                    5: [16384, 20000, 2**24 - 1], 6: [100, 65536], 8: [0, 1], 16: [5], 200: [7]}
+            ks = rng.sample(sorted(good), rng.randrange(1, 4))
+            d['ls'] = [(k, pick(rng, good[k])) for k in ks]
         return d
     if mode == 'pair':
         ops = [cfg(0, True), cfg(1, False)]
